@@ -1,8 +1,8 @@
 CONSTANTS
   Mode = "tbfrag"
   Alpha = {0}
-  MaxLen = 4
-  First = {0}
+  MaxLen = 3
+  First = {}
 INIT Init
 NEXT Next
 INVARIANTS Laws Emit
